@@ -20,9 +20,9 @@ TEXT = {
     "C03": ("names never capture: substitution lemma with explicit capture side condition, simultaneity at every port/resource of a hierarchy, iterator guard, kernel-checked counter-example "
             "for sequential substitution; oracle: (R, pi.R) renaming pairs and re-substitution probes on the real code",
             "theorem", "as C01"),
-    "C04": ("closedness: free-symbol lemmas of simultaneous substitution in the model; oracle inspects every expression of real compiled trees and total numeric assignments",
+    "C04": ("closedness of the WHOLE compiled hierarchy (Lean theorem, obtained by instantiating the refinement theorem of C01 with the one-point interpretation: semantic well-scopedness => every port size and resource mentions only the given names); hypothesis evaluated by the model on every generated routine (driver `wellscoped`); oracle inspects every expression of real compiled trees and total numeric assignments",
             "theorem", "as C01"),
-    "C05": ("evaluate: order-freedom, everywhere, empty, unassigned-untouched, remaining inputs, staging, exact values proved for the model of `_evaluate_internal`; partial on rounding to 15 digits",
+    "C05": ("evaluate: order-freedom, everywhere, empty, unassigned-untouched, remaining inputs, staging, exact values, and functions_map (reaches every call; rewritten expression = original read with the names interpreted by the implementations, for every interpretation) proved for the model of `_evaluate_internal`; Lean `evaluate` vs real `evaluate` on the same compiled routine, assignment and functions_map; partial on rounding to 15 digits",
             "theorem", "Lean kernel + model of evaluate; rounding (mpmath/IEEE) not modelled: checked numerically to 1e-14 relative"),
     "C06": ("size mismatches: theorems relative to the comparator contract; ground truth from the independent reading on a fault stream, both violating and satisfying assignments",
             "theorem", "comparator (sympy expand) is a contract: CmpSound; instance Cmp.poly corresponded"),
@@ -30,7 +30,7 @@ TEXT = {
             "theorem", "translator harness/translate/sequences.py (sympy expression -> Lean term); Mathlib big operators"),
     "C08": ("default propagation: oracle on real trees (sum/product over exactly the children, explicit wins, flat leaf sum) + model correspondence",
             "theorem", "as C01"),
-    "C09": ("order independence: lookup-based lemmas (permutation of a duplicate-free assignment/dictionary is unobservable) + permutation oracle on the real code (all child orders <=4 in thorough)",
+    "C09": ("order independence (Lean theorems): `_compile` sees its parameter dictionaries only as mappings; independent children commute; ANY two processing orders that respect the wiring give the parent and every child the same compiled result, also when children are re-listed at every level at once; the order `sorted_children_order` returns is such an order for every listing (Kahn correctness); canonical sort / lookup lemmas for the other fields; + Lean compile vs real compile on original and permuted documents + permutation oracle on the real code (all child orders <=4 in thorough)",
             "theorem", "as C01; qref's own sorting of lists is external"),
     "C10": ("structure preservation: oracle walks source vs compiled trees; model correspondence compares names, types, ports, connections, resources",
             "theorem", "as C01"),
@@ -38,15 +38,15 @@ TEXT = {
             "theorem", "ast.parse and the five regex stages are modelled by the Lean lexer/parser (corresponded); tables by translator"),
     "C12": ("print/parse round trip: oracle on expressions produced by compile/evaluate and on generated sympy objects; the Lean parser reads the printed text like the real parser",
             "theorem", "sympy StrPrinter layout of Add/Mul is external (partial)"),
-    "C13": ("QREF export/import: oracle on uncompiled routines and compilation results incl. every sequence kind; re-compilation equality",
+    "C13": ("QREF export/import (Lean theorem): export then import is the identity up to re-read expressions, including the string encodings of endpoints and link targets (deep-link paths with dots) and the merge of links; Lean `Routine.toQ` vs the document `to_qref` wrote, field by field; oracle on uncompiled routines and compilation results incl. every sequence kind; re-compilation equality",
             "theorem", "pydantic/qref validators external"),
     "C14": ("purity/reproducibility: memoisation transparency and history freedom proved; mutation, hash seeds, process history explored across processes",
             "theorem", "runtime effects cannot be exhibited by a pure model (level other)"),
-    "C15": ("aggregation: path-sum reference with exact fractions; exhaustive over all weighted graphs on 3|4 names incl. every cyclic one",
+    "C15": ("aggregation (Lean theorems): the expanded dictionary is the path sum W(r,b)=w(r,b)+sum_t w(r,t)W(t,b) over base targets for every commutative semiring; every cyclic dictionary is rejected and only cyclic ones are (Kahn correctness and completeness); Lean `addAggregatedResources` vs real on all weighted graphs on 3|4 names; path-sum reference with exact fractions",
             "theorem", "graphlib external"),
-    "C16": ("highwater = max over cuts: independent cut enumeration on real compiled trees at non-negative points",
+    "C16": ("highwater = local ancillae + max over cuts (Lean theorem over an ordered additive group; the literal loop incl. the zero-watermark filter equals the cut formula on non-negative sizes); Lean `highwaterImpl` on the values of every real compiled node vs the real highwater; independent cut enumeration on real compiled trees, also for Routine objects with another valid children_order",
             "theorem", "as C01"),
-    "C17": ("verification is the first step of compile_routine in the model and any topology/repetition problem is a compilation error (proved); fault injection at every position on the real code; "
+    "C17": ("verification is the first step of compile_routine in the model and any topology/repetition problem or child cycle is a compilation error (proved); the KeyError/CycleError/AssertionError sites of `_compile` are unreachable on soundly wired trees of any depth and sequence kind (proved; hypothesis `Routine.sound` evaluated by the driver on every compiled routine); fault injection at every position on the real code; "
             "partial on exceptions raised inside sympy",
             "theorem", "qref verify_topology is a hand model, corresponded on every injected fault"),
     "C18": ("LaTeX rendering total and complete: oracle with an independent formatter of entry keys incl. multiplicity, four flag combinations, source and compiled documents",
